@@ -1,12 +1,378 @@
-use crate::util::Report;
-use crate::Ctx;
-use serde_json::Value;
+//! C11 — bulk symbol kernels equal element-wise field operations on every code path.
+//! Enumerated grid (kernel x op x length x alignment x scalar) x generated contents; the oracle
+//! is an element-wise model using the polynomial multiplier; a canary checks that bytes outside
+//! the operand are untouched.
 
-pub fn run(_ctx: &Ctx, _rep: &mut Report) {
-    eprintln!("not implemented yet");
-    std::process::exit(2);
+use crate::reference as rf;
+use crate::util::{catch, mix, simple_failure, Failure, Report, SplitMix, Stats, SubOutcome, Tier};
+use crate::Ctx;
+use raptorq::verif::verif_kernels as vk;
+use raptorq::verif::{BinaryOctetVec, Octet};
+use rayon::prelude::*;
+use serde_json::{json, Value};
+use std::time::Instant;
+
+#[derive(Copy, Clone, Debug, PartialEq, Eq, Hash)]
+pub enum Op {
+    Add,
+    Mul,
+    Fma,
+    FmaBinary,
 }
 
-pub fn replay(_sub: &str, _case: &Value) -> Result<(), String> {
-    Err("not implemented".into())
+pub const OPS: [Op; 4] = [Op::Add, Op::Mul, Op::Fma, Op::FmaBinary];
+
+/// Which entry point: one private kernel, or the public dispatcher (CPU detection).
+#[derive(Copy, Clone, Debug, PartialEq, Eq, Hash)]
+pub enum Path {
+    Kernel(vk::Kernel),
+    Dispatch,
+}
+
+pub fn paths() -> Vec<Path> {
+    let mut v: Vec<Path> = vk::ALL_KERNELS.iter().copied().filter(|k| vk::supported(*k)).map(Path::Kernel).collect();
+    v.push(Path::Dispatch);
+    v
+}
+
+pub fn path_name(p: Path) -> String {
+    match p {
+        Path::Kernel(k) => format!("{k:?}"),
+        Path::Dispatch => "Dispatch".into(),
+    }
+}
+
+pub fn path_from(s: &str) -> Option<Path> {
+    if s == "Dispatch" {
+        return Some(Path::Dispatch);
+    }
+    vk::ALL_KERNELS.iter().copied().find(|k| format!("{k:?}") == s).map(Path::Kernel)
+}
+
+fn width(p: Path, op: Op) -> usize {
+    match p {
+        Path::Kernel(vk::Kernel::Avx512) | Path::Dispatch => 64,
+        Path::Kernel(vk::Kernel::Avx2) => 32,
+        Path::Kernel(vk::Kernel::Ssse3) | Path::Kernel(vk::Kernel::Neon) => 16,
+        Path::Kernel(vk::Kernel::Portable) => {
+            if op == Op::Add {
+                8
+            } else {
+                1
+            }
+        }
+    }
+}
+
+#[derive(Clone, Debug)]
+pub struct Case {
+    pub path: Path,
+    pub op: Op,
+    pub len: usize,
+    pub d_off: usize,
+    pub s_off: usize,
+    pub scalar: u8,
+    /// 0 random, 1 all 0x00, 2 all 0xFF, 3.. one-hot at a boundary position
+    pub content: u8,
+    pub seed: u64,
+}
+
+pub fn case_json(c: &Case) -> Value {
+    json!({"path": path_name(c.path), "op": format!("{:?}", c.op), "len": c.len, "d_off": c.d_off, "s_off": c.s_off, "scalar": c.scalar, "content": c.content, "seed": c.seed})
+}
+
+pub fn case_from(v: &Value) -> Case {
+    let op = match v["op"].as_str().unwrap_or("Add") {
+        "Mul" => Op::Mul,
+        "Fma" => Op::Fma,
+        "FmaBinary" => Op::FmaBinary,
+        _ => Op::Add,
+    };
+    Case {
+        path: path_from(v["path"].as_str().unwrap_or("Dispatch")).unwrap_or(Path::Dispatch),
+        op,
+        len: v["len"].as_u64().unwrap() as usize,
+        d_off: v["d_off"].as_u64().unwrap() as usize,
+        s_off: v["s_off"].as_u64().unwrap() as usize,
+        scalar: v["scalar"].as_u64().unwrap() as u8,
+        content: v["content"].as_u64().unwrap() as u8,
+        seed: v["seed"].as_u64().unwrap(),
+    }
+}
+
+pub fn fill(content: u8, seed: u64, len: usize, binary: bool) -> Vec<u8> {
+    let mut rng = SplitMix::new(seed);
+    let mut v = match content {
+        1 => vec![0u8; len],
+        2 => vec![if binary { 1 } else { 0xFF }; len],
+        0 => rng.bytes(len),
+        k => {
+            // one-hot at one of the first / last three positions
+            let mut v = vec![0u8; len];
+            if len > 0 {
+                let pos = match (k - 3) % 6 {
+                    0 => 0,
+                    1 => 1.min(len - 1),
+                    2 => 2.min(len - 1),
+                    3 => len - 1,
+                    4 => len.saturating_sub(2),
+                    _ => len.saturating_sub(3),
+                };
+                v[pos] = 1 + rng.below(255) as u8;
+            }
+            v
+        }
+    };
+    if binary {
+        for x in v.iter_mut() {
+            *x &= 1;
+        }
+    }
+    v
+}
+
+/// Pack a 0/1 vector into the documented layout: value k at global bit (padding + k),
+/// padding = (64 - len mod 64) mod 64, 64-bit words, bit i of a word = 1 << i.
+pub fn pack_bits(bits: &[u8]) -> Vec<u64> {
+    let len = bits.len();
+    let padding = (64 - len % 64) % 64;
+    let mut words = vec![0u64; (len + 63) / 64];
+    for (k, &b) in bits.iter().enumerate() {
+        if b != 0 {
+            let g = padding + k;
+            words[g / 64] |= 1u64 << (g % 64);
+        }
+    }
+    words
+}
+
+/// Invoke the operation on `dest` (and `src`); returns false if the path does not exist here.
+pub fn invoke(c: &Case, dest: &mut [u8], src: &[u8]) -> bool {
+    let s = Octet::new(c.scalar);
+    match (c.path, c.op) {
+        (Path::Kernel(k), Op::Add) => vk::add_assign(k, dest, src),
+        (Path::Kernel(k), Op::Mul) => vk::mulassign_scalar(k, dest, &s),
+        (Path::Kernel(k), Op::Fma) => vk::fused_addassign_mul_scalar(k, dest, src, &s),
+        (Path::Kernel(k), Op::FmaBinary) => {
+            let packed = BinaryOctetVec::new(pack_bits(src), src.len());
+            vk::fused_addassign_mul_scalar_binary(k, dest, &packed, &s)
+        }
+        (Path::Dispatch, Op::Add) => {
+            raptorq::verif::add_assign(dest, src);
+            true
+        }
+        (Path::Dispatch, Op::Mul) => {
+            raptorq::verif::mulassign_scalar(dest, &s);
+            true
+        }
+        (Path::Dispatch, Op::Fma) => {
+            raptorq::verif::fused_addassign_mul_scalar(dest, src, &s);
+            true
+        }
+        (Path::Dispatch, Op::FmaBinary) => {
+            let packed = BinaryOctetVec::new(pack_bits(src), src.len());
+            raptorq::verif::fused_addassign_mul_scalar_binary(dest, &packed, &s);
+            true
+        }
+    }
+}
+
+/// Documented "don't call" preconditions of the public dispatchers (debug assertions).
+pub fn precondition_ok(c: &Case) -> bool {
+    if c.path == Path::Dispatch && cfg!(debug_assertions) {
+        match c.op {
+            Op::Fma => c.scalar > 1,
+            Op::FmaBinary => c.scalar != 0,
+            _ => true,
+        }
+    } else {
+        true
+    }
+}
+
+pub fn model(c: &Case, dest: &[u8], src: &[u8]) -> Vec<u8> {
+    match c.op {
+        Op::Add => dest.iter().zip(src).map(|(d, s)| d ^ s).collect(),
+        Op::Mul => dest.iter().map(|&d| rf::mul(c.scalar, d)).collect(),
+        Op::Fma | Op::FmaBinary => dest.iter().zip(src).map(|(d, s)| d ^ rf::mul(c.scalar, *s)).collect(),
+    }
+}
+
+const CANARY: u8 = 0xA5;
+
+/// Run one case inside a 64-byte aligned arena with canaries around the destination.
+pub fn run_arena(c: &Case) -> Result<bool, String> {
+    if !precondition_ok(c) {
+        return Ok(false);
+    }
+    let binary = c.op == Op::FmaBinary;
+    // destination content follows the content class; so does the source (as bytes, or as a 0/1
+    // vector for the packed-binary operand: random bits / all 0 / all 1 / one-hot)
+    let d0 = fill(c.content, c.seed, c.len, false);
+    let s0 = if binary {
+        fill(c.content, c.seed ^ 0x5151, c.len, false).iter().map(|&x| if c.content == 0 { x & 1 } else { (x != 0) as u8 }).collect::<Vec<u8>>()
+    } else {
+        fill(c.content, c.seed ^ 0x5151, c.len, false)
+    };
+    // arenas: [64 align slack][64 canary][offset + len][64 canary]
+    let total = 64 + 64 + 64 + c.len + 64;
+    let mut darena = vec![CANARY; total];
+    let mut sarena = vec![CANARY; total];
+    let dbase = (64 - (darena.as_ptr() as usize % 64)) % 64 + 64 + c.d_off;
+    let sbase = (64 - (sarena.as_ptr() as usize % 64)) % 64 + 64 + c.s_off;
+    darena[dbase..dbase + c.len].copy_from_slice(&d0);
+    sarena[sbase..sbase + c.len].copy_from_slice(&s0);
+    let want = model(c, &d0, &s0);
+    let ran = {
+        let (d, s) = (&mut darena[dbase..dbase + c.len], &sarena[sbase..sbase + c.len]);
+        match catch(|| invoke(c, d, s)) {
+            Ok(r) => r,
+            Err(p) => return Err(format!("panic: {p}")),
+        }
+    };
+    if !ran {
+        return Ok(false);
+    }
+    if darena[dbase..dbase + c.len] != want[..] {
+        let pos = (0..c.len).find(|&i| darena[dbase + i] != want[i]).unwrap();
+        return Err(format!(
+            "{} {:?} len={} scalar={}: byte {pos} is {:#04x}, element-wise field result is {:#04x} (dest was {:#04x}, src {:#04x})",
+            path_name(c.path), c.op, c.len, c.scalar, darena[dbase + pos], want[pos], d0[pos], s0[pos]
+        ));
+    }
+    for (i, &b) in darena.iter().enumerate() {
+        if (i < dbase || i >= dbase + c.len) && b != CANARY {
+            return Err(format!("{} {:?} len={}: wrote outside the destination slice (arena byte {} relative to slice start)", path_name(c.path), c.op, c.len, i as isize - dbase as isize));
+        }
+    }
+    if sarena[sbase..sbase + c.len] != s0[..] || sarena.iter().enumerate().any(|(i, &b)| (i < sbase || i >= sbase + c.len) && b != CANARY) {
+        return Err(format!("{} {:?} len={}: modified the source operand", path_name(c.path), c.op, c.len));
+    }
+    Ok(true)
+}
+
+pub fn lengths() -> Vec<usize> {
+    let mut v: Vec<usize> = (0..=320).collect();
+    v.extend([511, 512, 513, 1280, 4099]);
+    v
+}
+
+const SPECIAL_LENS: [usize; 24] = [1, 7, 8, 9, 15, 16, 17, 31, 32, 33, 41, 63, 64, 65, 71, 72, 127, 128, 129, 191, 192, 193, 257, 320];
+
+fn signature(c: &Case, msg: &str) -> String {
+    let kind = if msg.contains("panic") {
+        "panic"
+    } else if msg.contains("outside") {
+        "canary"
+    } else if msg.contains("source operand") {
+        "src-modified"
+    } else {
+        "value"
+    };
+    format!("kernel:{}:{:?}:{kind}", path_name(c.path), c.op)
+}
+
+pub fn run(ctx: &Ctx, rep: &mut Report) {
+    let ps = paths();
+    rep.rule = format!("enumerated grid: entry point in {:?} (every kernel the hook exposes that `supported()` reports on this CPU, plus the public dispatchers) x op in {{add, mul, fma, fma_binary}} x length in 0..=320 U {{511,512,513,1280,4099}} x destination start offset 0..=63 inside a 64-byte aligned arena (source offset derived independently) x scalars (quick: all 256 at 24 lengths with offsets {{0,1,63}}, {{0,1,2,0x1D,0x80,0xFF}} + 2 generated elsewhere; thorough: all 256 everywhere at offsets {{0,1,31,63}} and 8 scalars at every offset) x contents (random, 0x00, 0xFF, one-hot at each of the first/last three positions). The packed operand of fma_binary is built by the harness from the documented layout. Oracle: element-wise model with the polynomial multiplier + canaries around the destination and source. Non-trivial = length >= one vector width of the kernel with length mod width != 0 and scalar not in {{0,1}}; distinct by (path, op, len, offset, scalar, content).", ps.iter().map(|p| path_name(*p)).collect::<Vec<_>>());
+    rep.exhaustive = ctx.tier == Tier::Thorough;
+    rep.assumptions.push("NEON kernels cannot execute on this x86-64 host; they are not covered".into());
+    if cfg!(debug_assertions) {
+        rep.assumptions.push("chk build: the public dispatchers are not called with the scalars their debug assertions document as 'don't call' (0/1)".into());
+    }
+    let started = Instant::now();
+    let lens = lengths();
+    let thorough = ctx.tier == Tier::Thorough;
+    // work units: (path, op, len)
+    let mut units = vec![];
+    for &p in &ps {
+        for &op in &OPS {
+            for &len in &lens {
+                units.push((p, op, len));
+            }
+        }
+    }
+    let seed = ctx.seed;
+    let results: Vec<(Stats, Option<Failure>)> = units
+        .par_iter()
+        .map(|&(path, op, len)| {
+            let mut st = Stats::new();
+            let mut fail: Option<Failure> = None;
+            let w = width(path, op);
+            let mut rng = SplitMix::new(mix(mix(seed, 0xC11), ((len as u64) << 8) ^ (op as u64) ^ (fnv(&path_name(path)) << 20)));
+            let special = SPECIAL_LENS.contains(&len);
+            for d_off in 0..64usize {
+                let mut scalars: Vec<u8> = vec![0, 1, 2, 0x1D, 0x80, 0xFF, rng.next_u64() as u8, rng.next_u64() as u8];
+                let all_scalars = if thorough { [0usize, 1, 31, 63].contains(&d_off) } else { special && [0usize, 1, 63].contains(&d_off) };
+                if all_scalars {
+                    scalars = (0..=255u8).collect();
+                }
+                if op == Op::Add {
+                    scalars = vec![1];
+                }
+                for (si, &scalar) in scalars.iter().enumerate() {
+                    let contents: Vec<u8> = if thorough || all_scalars && si < 8 {
+                        (0..9).collect()
+                    } else {
+                        vec![0, 1 + ((d_off + si) % 8) as u8]
+                    };
+                    for content in contents {
+                        let c = Case { path, op, len, d_off, s_off: (rng.next_u64() % 64) as usize, scalar, content, seed: rng.next_u64() };
+                        match run_arena(&c) {
+                            Ok(true) => {
+                                st.eval();
+                                if len >= w && len % w != 0 && scalar > 1 {
+                                    st.nt_enumerated(1);
+                                }
+                            }
+                            Ok(false) => {
+                                st.class("skipped: path/op unavailable or documented don't-call");
+                            }
+                            Err(m) => {
+                                if fail.is_none() {
+                                    fail = Some(simple_failure("grid", m.clone(), signature(&c, &m), case_json(&c)));
+                                }
+                            }
+                        }
+                        if fail.is_some() {
+                            break;
+                        }
+                    }
+                    if fail.is_some() {
+                        break;
+                    }
+                }
+                if fail.is_some() {
+                    break;
+                }
+            }
+            st.class_n(&format!("calls:{}:{:?}", path_name(path), op), st.evaluations);
+            if len == 65 && op == Op::Fma {
+                let c = Case { path, op, len, d_off: 3, s_off: 9, scalar: 0x1D, content: 0, seed: 1 };
+                st.sample(|| case_json(&c));
+            }
+            (st, fail)
+        })
+        .collect();
+    let mut st = Stats::new();
+    let mut failures = vec![];
+    for (s, f) in results {
+        st.merge(s);
+        if let Some(f) = f {
+            failures.push(f);
+        }
+    }
+    // one failure per distinct signature (distinct kernels are distinct root causes)
+    failures.sort_by(|a, b| a.signature.cmp(&b.signature));
+    failures.dedup_by(|a, b| a.signature == b.signature);
+    failures.truncate(4);
+    rep.absorb(if cfg!(debug_assertions) { "grid[chk]" } else { "grid" }, SubOutcome { stats: st, failures, wall_s: started.elapsed().as_secs_f64() });
+}
+
+fn fnv(s: &str) -> u64 {
+    crate::util::fnv_str(s)
+}
+
+pub fn replay(_sub: &str, case: &Value) -> Result<(), String> {
+    run_arena(&case_from(case)).map(|_| ())
 }
